@@ -887,6 +887,36 @@ def rule_pair_predicate(model):
                 r.finding(fi.where, x, f'`{subj}` is treated as a (key, '
                           'item) pair because it has length 2, without '
                           'testing that it is a tuple', node=x, ctx=fi)
+    # a predicate helper: def is_pair(ob): return <...> and len(ob) == 2
+    for fi in model.all_funcs():
+        if fi.module.short not in ('DT_In', 'DT_InSV', 'DT_Util'):
+            continue
+        ps = set(fi.params())
+        for x in own_nodes(fi.node):
+            if not (isinstance(x, ast.Return) and x.value is not None):
+                continue
+            lens = [c for c in ast.walk(x.value)
+                    if isinstance(c, ast.Compare) and len(c.ops) == 1 and
+                    isinstance(c.ops[0], ast.Eq) and
+                    isinstance(c.left, ast.Call) and
+                    norm(c.left.func) == 'len' and c.left.args and
+                    isinstance(c.left.args[0], ast.Name) and
+                    c.left.args[0].id in ps and
+                    isinstance(c.comparators[0], ast.Constant) and
+                    c.comparators[0].value == 2]
+            for c in lens:
+                subj = c.left.args[0].id
+                n += 1
+                ok = any(_tuple_test_of(model, fi, t, subj)
+                         for t in _conjuncts(x.value))
+                r.instance(fi.where, x, 'tuple test conjoined' if ok
+                           else 'NO TUPLE TEST')
+                if not ok:
+                    r.finding(fi.where, x, f'the pair predicate accepts '
+                              f'`{subj}` because it has length 2 without '
+                              'requiring a tuple: two-element lists, and '
+                              'two-byte bytes values, are split into key '
+                              'and item', node=x, ctx=fi)
     if n < 4:
         raise AnalysisError(f'C10.R7: only {n} pair tests found (floor 4)')
     return r
@@ -1003,6 +1033,75 @@ def rule_skip_scope(model):
     return r
 
 
+class _StS(BaseState):
+    __slots__ = ('plain', 'alias', 'trace', 'cur_exc')
+
+    def __init__(self, plain=False, alias=False):
+        self.plain, self.alias = plain, alias
+        self.trace = ()
+        self.cur_exc = None
+
+    def key(self):
+        return (self.plain, self.alias)
+
+    def copy(self):
+        n = _StS(self.plain, self.alias)
+        n.trace = self.trace
+        return n
+
+
+class _StoreBoth(Domain):
+    def __init__(self, maps, name):
+        self.maps, self.name = maps, name
+
+    def effects(self, stmt, st):
+        for t in (stmt.targets if isinstance(stmt, ast.Assign) else []):
+            if isinstance(t, ast.Subscript) and norm(t.value) in self.maps:
+                st = st.copy()
+                if norm(t.slice) == self.name:
+                    st.plain = True
+                else:
+                    st.alias = True
+        return st
+
+
+def rule_prefix_store(model):
+    r = RuleResult('C10.R10', 'the prefix-aware mapping stores every '
+                   'variable it is given, under its plain name and under '
+                   'its alias, on every path (no early return that skips a '
+                   'store: a value that is None, or equal to what a lookup '
+                   'of an absent key answers, would never be written)')
+    ci = model.modules['DT_Util'].classes.get('Add_with_prefix')
+    fi = ci.methods.get('__setitem__') if ci else None
+    if fi is None:
+        raise AnalysisError('C10.R10: Add_with_prefix.__setitem__ not found')
+    ps = fi.params()
+    maps = {'self.map'}
+    for x in own_nodes(fi.node):
+        if isinstance(x, ast.Assign) and norm(x.value) == 'self.map' and \
+                isinstance(x.targets[0], ast.Name):
+            maps.add(x.targets[0].id)
+    outs = Interp(_StoreBoth(maps, ps[1])).run(fi.node, _StS())
+    exits = [o for o in outs if o.kind in ('normal', 'return')]
+    if not exits:
+        raise AnalysisError('C10.R10: __setitem__ has no normal exit')
+    for o in exits:
+        what = norm(o.node) if o.node is not None else 'end of function'
+        ok = o.state.plain and o.state.alias
+        r.instance(fi.where, what, 'both stored' if ok else
+                   f'plain={o.state.plain} alias={o.state.alias}')
+        if not ok:
+            r.finding(fi.where, f'exit `{what}` without both stores',
+                      '__setitem__ can finish without storing the value '
+                      'under ' + ('its plain name' if not o.state.plain
+                                  else 'its prefix alias') +
+                      ': a loop variable (the `mapping` flag, a preset) is '
+                      'then missing from the variable object and resolves '
+                      'from an outer loop or raises KeyError',
+                      node=o.node or fi.node, ctx=fi, path=o.state.trace)
+    return r
+
+
 def rule_own_namespace(model):
     r = RuleResult('C10.R6', 'the variable object dtml-in pushes answers a '
                    'key without a dash only when a non-empty prefix= alias '
@@ -1016,7 +1115,7 @@ RULES = [_inl(rule_index), _inl(rule_prefix), _inl(rule_providers),
          _inl(rule_empty),
          _inl(rule_twins), rule_own_namespace,
          rule_pair_predicate, rule_absent_vs_none,
-         _inl(rule_skip_scope)]
+         _inl(rule_skip_scope), rule_prefix_store]
 EXPLANATION = (
     'Loop-bound agreement (linear forms) for index uses and first/last '
     'markers; store-site query for prefix-aware keys; provider table for '
